@@ -141,6 +141,9 @@ func c27Check(c c27Case, r *ev.Rec) error {
 								}
 							}
 							sig = "descriptor/only:" + strings.Join(used, "+")
+							if mask != 1 {
+								sig = "descriptor/needs-normalising:" + strings.Join(used, "+")
+							}
 							break subsets
 						}
 					}
@@ -377,7 +380,9 @@ var c27Known = []c27KnownClass{
 	{"exp-rejects/:expected N-bit integer type, found", "jstype-on-non-64-bit-rejected"},
 	{"exp-rejects/:expected repeated field, found singular field", "repeated-field-encoding-on-map-rejected"},
 	{"exp-rejects/:unsupported base for floating-point literal", "hex-integer-for-float-option"},
-	{"descriptor/only:", "descriptor-encoding-details"},
+	// float-default-text and enum-default-alias were repaired (7dd5c285, 330c996e): a difference that needs one of those
+	// normalisations to disappear is a violation again
+	{"descriptor/only:any-payload-encoding", "descriptor-encoding-details"},
 }
 
 func c27Gen(t *rapid.T) c27Case {
